@@ -316,7 +316,7 @@ def ptr(off: int) -> bytes:
 def gen_compression_graph(rng: random.Random) -> Tuple[bytes, str]:
     """Adversarial pointer arrangements.  Layout: header, then a question or record whose name starts a walk."""
     shape = rng.choice(["chain", "chain", "chain-labels", "cycle", "self", "forward", "into-rdata", "into-header", "to-end",
-                        "fan-in", "fan-in-empty", "deep-then-long", "label-bomb", "two-cycles"])
+                        "fan-in", "fan-in-empty", "deep-then-long", "label-bomb", "two-cycles", "chain-fwd", "chain-fwd", "zigzag"])
     body = bytearray()
     base = 12
 
@@ -344,6 +344,43 @@ def gen_compression_graph(rng: random.Random) -> Tuple[bytes, str]:
             data = header(qd=1) + ptr(prev) + struct.pack(">HH", 12, 1) + bytes(body)
         else:
             data = header(an=1) + ptr(prev) + struct.pack(">HHIH", 99, 1, 120, 0) + bytes(body)
+        return data[:MAX], "%s-%d" % (shape, k)
+    if shape in ("chain-fwd", "zigzag"):
+        # every hop points FORWARD (chain-fwd) or alternately far forward / back (zigzag): no hop is a backward pointer to a
+        # place already visited, so loop detection never triggers - only a bound on the number of hops stops the walk
+        k = rng.choice([1, 10, 127, 128, 129, 200, 600, 1100, 1500, 3000, 4400])
+        with_labels = rng.random() < 0.3
+        hop = 4 if with_labels else 2
+        k = min(k, (MAX - 60) // hop)
+        as_question = rng.random() < 0.5
+        start = 12 + (6 if as_question else 12)
+        if shape == "chain-fwd":
+            order = list(range(k))
+        else:
+            lo, hi, order = 0, k - 1, []
+            while lo <= hi:
+                order.append(lo)
+                if lo != hi:
+                    order.append(hi)
+                lo += 1
+                hi -= 1
+        # slot j lives at offset start + j*hop; the walk visits slots in `order`
+        slots = [b""] * k
+        end_off = start + k * hop
+        for idx, j in enumerate(order):
+            nxt = (start + order[idx + 1] * hop) if idx + 1 < len(order) else end_off
+            slots[j] = (b"\x01" + bytes([97 + j % 26]) if with_labels else b"") + ptr(nxt)
+        chain = b"".join(slots) + b"\x01z\0"
+        first = ptr(start + order[0] * hop)
+        if as_question:
+            data = header(qd=1) + first + struct.pack(">HH", 12, 1) + chain
+        elif rng.random() < 0.5:
+            data = header(an=1) + first + struct.pack(">HHIH", 99, 1, 120, 0) + chain
+        else:
+            # the chain inside PTR rdata (decoded lazily by answers())
+            own = b"\x01o\0"
+            data = header(an=1) + own + struct.pack(">HHIH", 12, 1, 120, 2) + ptr(12 + len(own) + 10 + 2 + order[0] * hop) + chain if False else \
+                header(an=1) + first + struct.pack(">HHIH", 12, 1, 120, 2) + ptr(start + order[0] * hop) + chain
         return data[:MAX], "%s-%d" % (shape, k)
     if shape in ("cycle", "two-cycles"):
         k = rng.choice([2, 3, 10, 200])
